@@ -192,7 +192,37 @@ def rule_size_overflow(ctx, p, cfg, rid="L2"):
 
 
 
+def rule_integer_forms(ctx, p, cfg, rid="L8"):
+    """A limit / interval written as a bare integer reaches the visitor as u64 or as i64 depending on the file format (TOML
+    hands every integer over as i64): both entry points accept every non-negative value and agree on it."""
+    with ctx.rule(rid, "bare integers are accepted however the format hands them over", cfg) as r:
+        for who, pre in (("size", SIZE_V), ("interval", TIME_V)):
+            for m in ("visit_u64", "visit_i64"):
+                if not p.has_fn(pre + m):
+                    r.fail("%s:%s-present" % (who, m), detail="%s is not implemented: the format that uses it cannot give a bare integer" % m)
+                    continue
+                h = p.fn(pre + m)
+                oks = [b for b, e in q.ret_assignments(h) if q.classify_ret(e) == "ok"]
+                r.require(bool(oks), "%s:%s-can-succeed" % (who, m), fn=h, detail="%s has an Ok return" % m,
+                          fail_detail="%s::%s never returns Ok: a bare integer is rejected by every format that hands integers over this way" % (who, m))
+                if m == "visit_i64" and oks:
+                    # the Ok return is reached from the v >= 0 edge (not from an unreachable or inverted test)
+                    okedge = False
+                    for blk in h.blocks:
+                        if blk["term"]["k"] == "switch" and blk["id"] in h.reachable_blocks():
+                            si = SwitchInfo(h, blk["id"])
+                            nf = cmp_nf(si.discr, True)
+                            if nf and nf[0] == "Lt" and deep_strip(nf[1]) == ("param", 2) and deep_strip(nf[2]) == ("const", "int", 0):
+                                ft = si.target_of(False)
+                                okedge = ft is not None and any(b == ft or b in h.reach(ft) for b in oks)
+                            if nf and nf[0] == "Le" and deep_strip(nf[1]) == ("const", "int", 0) and deep_strip(nf[2]) == ("param", 2):
+                                tt = si.target_of(True)
+                                okedge = tt is not None and any(b == tt or b in h.reach(tt) for b in oks)
+                    r.require(okedge, "%s:non-negative-i64-accepted" % who, fn=h, detail="visit_i64 returns Ok on the v >= 0 edge")
+
+
 def run_cfg(ctx, p, cfg):
+    rule_integer_forms(ctx, p, cfg, "L8")
     rule_size_table(ctx, p, cfg, "L1")
     rule_size_overflow(ctx, p, cfg, "L2")
     with ctx.rule("L7", "the literal parsers cannot panic", cfg) as r:
